@@ -127,13 +127,14 @@ def k_assoc(run, case):
     exp1, exp2 = gen.read_views(gen.make_evo(a1, m1, flavour=f1)), gen.read_views(gen.make_evo(a2, m2, flavour=f2))
     s1, s2 = contracts.field_snapshot(tr1), contracts.field_snapshot(tr2)
     use_default_offset = offset == 0.0 and rng.random() < .5
-    if use_default_offset:
-        out = contracts.outcome_of(sync.associate_trajectories, tr1, tr2, max_diff)
-    else:
-        out = contracts.outcome_of(sync.associate_trajectories, tr1, tr2, max_diff, offset)
+    with gen.logging_state(rng) as log_state:
+        if use_default_offset:
+            out = contracts.outcome_of(sync.associate_trajectories, tr1, tr2, max_diff)
+        else:
+            out = contracts.outcome_of(sync.associate_trajectories, tr1, tr2, max_diff, offset)
     order = "first shorter" if len(t1) < len(t2) else "second shorter" if len(t1) > len(t2) else "equal"
     sign = "offset>0" if offset > 0 else "offset<0" if offset < 0 else "offset=0"
-    run.seen(case, core.digest(t1, t2, max_diff, offset), cls=["stamps:" + kind, order + ", " + sign,
+    run.seen(case, core.digest(t1, t2, max_diff, offset), cls=["stamps:" + kind, order + ", " + sign, "evo logger " + log_state,
                                                             "max_diff=0" if max_diff == 0 else "max_diff>0"],
              sample={"stamps": kind, "n1": len(t1), "n2": len(t2), "max_diff": max_diff,
                      "offset": offset, "outcome": out[0], "t1_head": t1[:4], "t2_head": t2[:4]})
